@@ -37,7 +37,12 @@ Definition tent := (N * nat)%type.
 Definition triple := (nat * nat * list tent)%type.
 
 Inductive case :=
-| CStep (k : nat) (op : cop) (published : list triple) (before after : list obs) (events : list triple).
+| CStep (k : nat) (op : cop) (published : list triple) (before after : list obs) (events : list triple)
+(* everything the instance published while the announcer of a write on one database was held
+   inside its pubsub call and another database was written many times: every payload is on
+   the topic of the address it carries and carries heads of that database only (this is what
+   the instance model publishes for any interleaving of announcers) *)
+| CPubs (published : list triple).
 
 Definition cop_target (op : cop) : nat :=
   match op with OWrite j _ _ | OSync j _ | OLoad j => j end.
@@ -125,6 +130,11 @@ Definition check (c : case) : bool * bool :=
   match c with
   | CStep k op pubs before after events =>
     (agree k op pubs before after events, holds k op pubs before after events)
+  | CPubs pubs =>
+    let ok := forallb (fun p : triple =>
+                Nat.eqb (fst (fst p)) (snd (fst p)) &&
+                forallb (fun e : tent => Nat.eqb (snd e) (fst (fst p))) (snd p)) pubs in
+    (ok, ok)
   end.
 
 Definition failures (base : nat) (cs : list case) := failures_from check base cs.
